@@ -4,8 +4,8 @@ from checks.engine_common import run_engine, run_linewriter, run_renderers
 META = {
     "property_id": "C18",
     "technique": "Coq proof over a Gallina model of the build engine + history correspondence with fresh-process builds",
-    "level_text": "Theorems: per_label_shape (every build, every mode), evaluating_iff_body_runs, lines_chunking_invariant, flush_leaves_empty, second_run_repeats_nothing (lineWriter). Correspondence: per-label event sequences of every build vs the model; real lineWriter vs model on random chunkings, two rounds per writer; the four CLI renderers (line, status, JSON, DOT) driven by the event streams of ten real build scenarios (no panic, well-formed JSON stream). Oracles: run-done once/last with Run's error, prints inside the evaluating window, evaluating iff body ran, lone failed event for missing dependencies, output of succeeding AND failing bodies (incl. an unterminated last line) delivered exactly once before the completion event.",
-    "level_note": 'Trusted: as C01; run-done ordering and print windows are oracle-checked, not theorems; interleavings of parallel targets are sampled by the real runner.',
+    "level_text": "Theorems: per_label_shape (every build, every mode), evaluating_iff_body_runs, lines_chunking_invariant, flush_leaves_empty, second_run_repeats_nothing (lineWriter), run_done_once_last (the complete stream of a build ends with exactly one run-done carrying the requested target's result), output_inside_window (per label the stream is nothing / up-to-date / lone failed / evaluating, then iff the body ran exactly the lines of what it wrote whatever the chunking, then one completion). Correspondence: per-label event sequences of every build vs the model; real lineWriter vs model on random chunkings, two rounds per writer; the four CLI renderers (line, status, JSON, DOT) driven by the event streams of ten real build scenarios (no panic, well-formed JSON stream). Oracles on the implementation: run-done once/last with Run's error, prints inside the evaluating window, evaluating iff body ran, lone failed event for missing dependencies, output of succeeding AND failing bodies (incl. an unterminated last line) delivered exactly once before the completion event.",
+    "level_note": "Trusted: as C01; the stream model (Build/Stream.v) composes the engine model's events with the line-writer model and is tied to the code by the protocol oracles (not by a term-by-term comparison of print events); interleavings of parallel targets are sampled by the real runner.",
     "design_ref": "DESIGN.md §6 C18",
 }
 
